@@ -315,7 +315,7 @@ var c12Prop = pbt.Register(pbt.Prop[C12Case]{
 		}
 		return cr > 0 || aw || used, labels, nil
 	},
-	Quick: 9600, Thorough: 200000,
+	Quick: 48000, Thorough: 960000,
 })
 
 func TestC12(t *testing.T) { pbt.Run(t, c12Prop) }
@@ -435,7 +435,7 @@ var c12Save = pbt.Register(pbt.Prop[C12Save]{
 	Classify: func(c C12Save) (bool, []string, []byte) {
 		return len(c.Palette) > 1, []string{fmt.Sprintf("save_%s_palette_%d", c.Kind, len(c.Palette))}, nil
 	},
-	Quick: 4800, Thorough: 100000,
+	Quick: 24000, Thorough: 480000,
 })
 
 func TestC12Save(t *testing.T) { pbt.Run(t, c12Save) }
